@@ -824,6 +824,24 @@ def check_word_list_tokens(ctx, rep, f, rule=RULE + '.tokens'):
                                 filtered = True
                             if isinstance(t, ast.Compare) and len(t.ops) == 1 and isinstance(t.ops[0], ast.NotEq) and u(t.left) == g.target.id and u(t.comparators[0]) in ("''", '""'):
                                 filtered = True
+        # an explicit loop over the tokens that skips the empty ones before anything else:  for t in <split>: if not t: continue
+        for lp in walk_no_nested(f.node):
+            if isinstance(lp, ast.For) and isinstance(lp.target, ast.Name) and any(x is c for x in ast.walk(lp.iter)) and lp.body:
+                t0 = lp.target.id
+                first = lp.body[0]
+                if isinstance(first, ast.Expr) and isinstance(first.value, ast.Constant) and len(lp.body) > 1:
+                    first = lp.body[1]
+                if isinstance(first, ast.If):
+                    tst = first.test
+                    empty_test = (isinstance(tst, ast.UnaryOp) and isinstance(tst.op, ast.Not) and u(tst.operand) in (t0, t0 + '.strip()')) or \
+                        (isinstance(tst, ast.Compare) and len(tst.ops) == 1 and isinstance(tst.ops[0], ast.Eq) and u(tst.left) == t0 and u(tst.comparators[0]) in ("''", '""')) or \
+                        (isinstance(tst, ast.Compare) and len(tst.ops) == 1 and isinstance(tst.ops[0], ast.Eq) and u(tst.left) == 'len({})'.format(t0) and u(tst.comparators[0]) == '0')
+                    nonempty_test = (isinstance(tst, ast.Name) and tst.id == t0) or \
+                        (isinstance(tst, ast.Compare) and len(tst.ops) == 1 and isinstance(tst.ops[0], ast.NotEq) and u(tst.left) == t0 and u(tst.comparators[0]) in ("''", '""'))
+                    if empty_test and not first.orelse and len(first.body) == 1 and isinstance(first.body[0], ast.Continue):
+                        filtered = True
+                    if nonempty_test and not first.orelse and first is lp.body[-1]:
+                        filtered = True
         if filtered:
             rep.holds(rule, f, c, 'the empty tokens of {} are filtered out'.format(u(c.func)))
         else:
